@@ -74,6 +74,12 @@ class IGEOS_Solver(ExactSolver):
         super().__init__(**kwargs)
         if min(self.rl, self.rr, self.pl, self.pr) <= 0:
             raise ValueError('densities and pressures must be positive')
+        # the two rarefactions leave a vacuum between them when the states
+        # separate faster than both fans can expand; that pattern is not solved
+        al = (self.gl * self.pl / self.rl)**0.5
+        ar = (self.gr * self.pr / self.rr)**0.5
+        if self.ur - self.ul > 2. * al / (self.gl - 1.) + 2. * ar / (self.gr - 1.):
+            raise ValueError('R,C,V,C,R: the solution for this problem is not ready')
 
     @print_when_verbose
     def _run(self, x, t):
